@@ -117,6 +117,10 @@ def run(rep, tier, seed, replay=None):
                 bad2 = [(tags[cases2.index(c)], c, a, b) for c, a, b in bad2]
             except RuntimeError as ex:
                 rep.add_broken('correspondence', 'model evaluation (K2)', str(ex)[-1500:])
+        # ---- K3 (added with the C05 / C06 blindness theorems about this model): the K2 protocol on trees where 30 % of the nodes are
+        # position:absolute and 25 % display:none, keeping the containers in which such children sit between in-flow ones
+        from . import _hidabs
+        _hidabs.block_k(rep, 'C10', binp, seed + 1010, 1600 if tier != 'quick' or block_changed else 400)
     feats, pairs, distinct = {}, set(), set()
     inflow_total = 0
     for c in cases:
